@@ -115,6 +115,15 @@ struct shape_checker
             std::printf("VECTOR %s | %s = %" PRId64 " ; %" PRId64 "\n", ds(dims).c_str(), ds(p).c_str(),
                         static_cast<int64_t>(vec.data() - ct.data()), static_cast<int64_t>(vec.size()));
             g_lines += 3;
+            {
+                tensor_size_t tail = 1;
+                for (size_t k = P; k < R; ++k) tail *= dims[k];
+                bool same = true;
+                for (size_t k = P; k < R; ++k) same = same && sub.dims()[k - P] == dims[k];
+                if (!same) FAIL("sub-tensor dims %s | %s -> %s", ds(dims).c_str(), ds(p).c_str(), ds(sub.dims()).c_str());
+                if (vec.size() != tail) FAIL("vector view size %s | %s -> %ld", ds(dims).c_str(), ds(p).c_str(), (long)vec.size());
+                if (vec.data() != sub.data()) FAIL("vector/tensor view base differ %s | %s", ds(dims).c_str(), ds(p).c_str());
+            }
             // read every element through the views (ASan checks the accesses) and compare with full indexing
             for (tensor_size_t k = 0; k < vec.size(); ++k)
             {
@@ -167,6 +176,14 @@ struct shape_checker
                 std::printf("SLICE %s | %" PRId64 ",%" PRId64 " = %" PRId64 " ; %s\n", ds(dims).c_str(), (int64_t)b, (int64_t)e,
                             static_cast<int64_t>(s.data() - ct.data()), ds(s.dims()).c_str());
                 ++g_lines;
+                {
+                    auto want = dims;
+                    want[0]   = e - b;
+                    if (s.dims() != want) FAIL("slice dims %s [%ld,%ld) -> %s", ds(dims).c_str(), (long)b, (long)e, ds(s.dims()).c_str());
+                    if (s.size() > 0 && s.data() != &ct(b * (ct.size() / dims[0]))) FAIL("slice base %s [%ld,%ld)", ds(dims).c_str(), (long)b, (long)e);
+                    for (tensor_size_t k = 0; k < s.size(); ++k)
+                        if (s(k) != val(b * (ct.size() / dims[0]) + k)) { FAIL("slice content %s [%ld,%ld)", ds(dims).c_str(), (long)b, (long)e); break; }
+                }
                 for_prefixes<R, R>(s.dims(), [&](const std::array<tensor_size_t, R>& idx) {
                     auto full = idx;
                     full[0] += b;
@@ -184,6 +201,8 @@ struct shape_checker
         const auto r = call_idx([&](auto... s) { return ct.reshape(s...); }, target, std::make_index_sequence<Q>{});
         std::printf("RESHAPE %s | %s = %s\n", ds(dims).c_str(), ds(target).c_str(), ds(r.dims()).c_str());
         ++g_lines;
+        for (size_t k = 0; k < Q; ++k)
+            if (target[k] != -1 && r.dims()[k] != target[k]) FAIL("reshape alters a given dimension %s -> %s", ds(dims).c_str(), ds(target).c_str());
         if (r.data() != ct.data()) FAIL("reshape does not alias %s -> %s", ds(dims).c_str(), ds(target).c_str());
         if (r.size() != ct.size()) FAIL("reshape changes size %s -> %s", ds(dims).c_str(), ds(target).c_str());
         else
@@ -394,6 +413,7 @@ int main(int argc, char** argv)
 {
     const std::string mode = argc > 1 ? argv[1] : "quick";
     vh::rng_t         rng(vh::env_seed());
+    std::setvbuf(stdout, nullptr, _IOLBF, 0); // so that the last operation before a sanitizer abort is visible
     if (mode == "quick")
     {
         exhaustive<int32_t, 1>(4, rng);
